@@ -1,4 +1,231 @@
+/-
+  AITB.Props.C04 — "POMDP value functions are executable conditional plans".
+
+  Theorems about AITB.Model.Plan (VEntry/VList/ValueFunction, Projecter, crossSum, Policy::sampleAction,
+  execReturn).  Unbounded: any POMDP tables (arbitrary rationals), any S, A, O, any horizon, any belief
+  (any function `Nat → Rat`, normalised or not), any observation history.
+-/
 import AITB.Model.Plan
 import AITB.Model.PlanOps
+import Mathlib.Algebra.Order.Field.Rat
+import Mathlib.Algebra.BigOperators.Ring.Finset
+import Mathlib.Algebra.Order.BigOperators.Group.Finset
+import Mathlib.Tactic.Ring
+import Mathlib.Tactic.Linarith
+
 namespace AITB.Plan
+open Finset
+
+theorem getD_eq_getElem' {α} (l : List α) (d : α) {i : Nat} (h : i < l.length) : l.getD i d = l[i] := by
+  rw [List.getD_eq_getElem?_getD, List.getElem?_eq_getElem h]; rfl
+
+/-! ## sums -/
+
+theorem sumTo_eq (n : Nat) (f : Nat → Rat) : sumTo n f = ∑ i ∈ range n, f i := by
+  induction n with
+  | zero => simp [sumTo]
+  | succ n ih => rw [sumTo, ih, Finset.sum_range_succ]
+
+theorem sumTo_congr {n : Nat} {f g : Nat → Rat} (h : ∀ i, i < n → f i = g i) : sumTo n f = sumTo n g := by
+  rw [sumTo_eq, sumTo_eq]; exact Finset.sum_congr rfl (fun i hi => h i (Finset.mem_range.mp hi))
+
+theorem sumTo_zero (n : Nat) : sumTo n (fun _ => 0) = 0 := by
+  rw [sumTo_eq]; simp
+
+theorem sumTo_le {n : Nat} {f g : Nat → Rat} (h : ∀ i, i < n → f i ≤ g i) : sumTo n f ≤ sumTo n g := by
+  rw [sumTo_eq, sumTo_eq]; exact Finset.sum_le_sum (fun i hi => h i (Finset.mem_range.mp hi))
+
+/-! ## maxima -/
+
+theorem le_maxQ_left (a b : Rat) : a ≤ maxQ a b := by
+  unfold maxQ; split <;> [exact le_of_lt ‹_›; exact le_refl _]
+
+theorem le_maxQ_right (a b : Rat) : b ≤ maxQ a b := by
+  unfold maxQ; split <;> [exact le_refl _; exact not_lt.mp ‹_›]
+
+theorem maxQ_cases (a b : Rat) : maxQ a b = a ∨ maxQ a b = b := by
+  unfold maxQ; split <;> simp
+
+theorem le_maxTo {n : Nat} (f : Nat → Rat) {i : Nat} (h : i < n) : f i ≤ maxTo n f := by
+  induction n with
+  | zero => omega
+  | succ n ih =>
+    rw [maxTo]
+    rcases Nat.lt_succ_iff_lt_or_eq.mp h with h1 | h1
+    · exact le_trans (ih h1) (le_maxQ_left _ _)
+    · subst h1; exact le_maxQ_right _ _
+
+theorem maxTo_attained {n : Nat} (f : Nat → Rat) (h : 0 < n) : ∃ i, i < n ∧ maxTo n f = f i := by
+  induction n with
+  | zero => omega
+  | succ n ih =>
+    rw [maxTo]
+    rcases Nat.eq_zero_or_pos n with h0 | h0
+    · subst h0
+      rcases maxQ_cases (maxTo 0 f) (f 0) with h1 | h1
+      · exact ⟨0, by omega, by rw [h1]; rfl⟩
+      · exact ⟨0, by omega, h1⟩
+    · rcases maxQ_cases (maxTo n f) (f n) with h1 | h1
+      · obtain ⟨i, hi, he⟩ := ih h0
+        exact ⟨i, by omega, by rw [h1, he]⟩
+      · exact ⟨n, by omega, h1⟩
+
+theorem maxTo_le {n : Nat} (f : Nat → Rat) (c : Rat) (h : 0 < n) (hb : ∀ i, i < n → f i ≤ c) : maxTo n f ≤ c := by
+  obtain ⟨i, hi, he⟩ := maxTo_attained f h
+  rw [he]; exact hb i hi
+
+/-! ## `Consistent`: the decidable predicate of the property -/
+
+/-- an entry is a genuine one-step plan over `prev` w.r.t. the derivation `step` -/
+structure EntryOK (step : Pomdp → VList → VEntry → Nat → Rat) (m : Pomdp) (prev : VList) (e : VEntry) : Prop where
+  action_lt : e.action < m.A
+  obs_len : e.obs.length = m.O
+  vals_len : e.values.length = m.S
+  link_lt : ∀ o, o < m.O → link e o < prev.length
+  plan : ∀ s, s < m.S → val e s = step m prev e s
+
+/-- every entry of every horizon ≥ 1 is a one-step plan over the previous horizon's list, all links in range -/
+def ConsistentW (step : Pomdp → VList → VEntry → Nat → Rat) (m : Pomdp) (vf : VF) : Prop :=
+  ∀ h, h + 1 < vf.length → ∀ id, id < (vlist vf (h+1)).length → EntryOK step m (vlist vf h) (entry vf (h+1) id)
+
+/-- as the code builds it (sub-tolerance observations carry no future value) -/
+def Consistent (m : Pomdp) (vf : VF) : Prop := ConsistentW oneStep m vf
+/-- against the true expectation -/
+def ConsistentExact (m : Pomdp) (vf : VF) : Prop := ConsistentW oneStepExact m vf
+
+/-- observation probabilities the Projecter treats as impossible are exactly zero
+    (true for every model whose non-zero observation probabilities exceed 1e-6) -/
+def ZeroBelow (m : Pomdp) : Prop :=
+  ∀ a o, a < m.A → o < m.O → possible m a o = false → ∀ s, s < m.S → m.Ob a s o = 0
+
+theorem oneStep_eq_exact {m : Pomdp} (hz : ZeroBelow m) (prev : VList) (e : VEntry) (ha : e.action < m.A) (s : Nat) :
+    oneStep m prev e s = oneStepExact m prev e s := by
+  unfold oneStep oneStepExact
+  congr 2
+  apply sumTo_congr
+  intro o ho
+  by_cases hp : possible m e.action o = true
+  · simp [hp]
+  · have hp' : possible m e.action o = false := by simpa using hp
+    simp only [hp', Bool.false_eq_true, if_false]
+    symm
+    rw [← sumTo_zero m.S]
+    apply sumTo_congr
+    intro s1 hs1
+    rw [hz e.action o ha ho hp' s1 hs1]; ring
+
+theorem consistent_exact_of_zeroBelow {m : Pomdp} {vf : VF} (hz : ZeroBelow m) (hc : Consistent m vf) :
+    ConsistentExact m vf := by
+  intro h hh id hid
+  have ok := hc h hh id hid
+  exact ⟨ok.action_lt, ok.obs_len, ok.vals_len, ok.link_lt,
+    fun s hs => by rw [ok.plan s hs, oneStep_eq_exact hz _ _ ok.action_lt]⟩
+
+/-! ## the checker is sound and complete for `Consistent` -/
+
+theorem entryShapeB_iff (m : Pomdp) (prev : VList) (e : VEntry) :
+    entryShapeB m prev e = true ↔
+      (e.action < m.A ∧ e.obs.length = m.O ∧ e.values.length = m.S ∧ ∀ o, o < m.O → link e o < prev.length) := by
+  simp [entryShapeB, and_assoc]
+
+theorem entryValsB_eq_iff (m : Pomdp) (prev : VList) (e : VEntry) :
+    entryValsB eqQ m prev e = true ↔ ∀ s, s < m.S → val e s = oneStep m prev e s := by
+  simp [entryValsB, eqQ]
+
+theorem levelB_iff (m : Pomdp) (prev cur : VList) :
+    levelB eqQ m prev cur = true ↔ ∀ id, id < cur.length → EntryOK oneStep m prev (entryAt cur id) := by
+  unfold levelB
+  rw [List.all_eq_true]
+  constructor
+  · intro h id hid
+    have hm : entryAt cur id ∈ cur := by
+      unfold entryAt; rw [getD_eq_getElem' _ _ hid]; exact List.getElem_mem hid
+    have := h _ hm
+    rw [Bool.and_eq_true, entryShapeB_iff, entryValsB_eq_iff] at this
+    obtain ⟨⟨h1, h2, h3, h4⟩, h5⟩ := this
+    exact ⟨h1, h2, h3, h4, h5⟩
+  · intro h e he
+    obtain ⟨id, hid, rfl⟩ := List.getElem_of_mem he
+    have ok := h id hid
+    have e1 : entryAt cur id = cur[id] := by unfold entryAt; rw [getD_eq_getElem' _ _ hid]
+    rw [e1] at ok
+    rw [Bool.and_eq_true, entryShapeB_iff, entryValsB_eq_iff]
+    exact ⟨⟨ok.action_lt, ok.obs_len, ok.vals_len, ok.link_lt⟩, ok.plan⟩
+
+theorem consistentFrom_iff (m : Pomdp) : ∀ (prev : VList) (rest : List VList),
+    consistentFrom eqQ m prev rest = true ↔ Consistent m (prev :: rest)
+  | prev, [] => by
+    simp only [consistentFrom, true_iff]
+    intro h hh; simp at hh
+  | prev, cur :: rest => by
+    rw [consistentFrom, Bool.and_eq_true, levelB_iff, consistentFrom_iff m cur rest]
+    constructor
+    · rintro ⟨h0, hr⟩ h hh id hid
+      cases h with
+      | zero => exact h0 id hid
+      | succ h =>
+        have := hr h (by simpa using hh) id hid
+        exact this
+    · intro hc
+      refine ⟨fun id hid => hc 0 (by simp) id hid, ?_⟩
+      intro h hh id hid
+      exact hc (h+1) (by simpa using hh) id hid
+
+/-- L3: the Lean-evaluated checker decides `Consistent` (with exact comparison) -/
+theorem consistentB_iff (m : Pomdp) (vf : VF) : consistentB eqQ m vf = true ↔ (vf ≠ [] ∧ Consistent m vf) := by
+  cases vf with
+  | nil => simp [consistentB]
+  | cons v0 rest => simp [consistentB, consistentFrom_iff]
+
+/-! ## executing a consistent value function earns what it promises -/
+
+/-- pure algebra: `b · (R_a + γ Σ_o Σ_s1 T Ob w_o) = b·R_a + γ Σ_o tau(b,a,o) · w_o` -/
+theorem plan_algebra (m : Pomdp) (b : Nat → Rat) (a : Nat) (w : Nat → Nat → Rat) :
+    sumTo m.S (fun s => b s * (m.R s a + m.disc * sumTo m.O (fun o =>
+        sumTo m.S (fun s1 => m.T a s s1 * m.Ob a s1 o * w o s1)))) =
+    rewardB m b a + m.disc * sumTo m.O (fun o => dot m.S (tau m b a o) (w o)) := by
+  simp only [sumTo_eq, rewardB, dot, tau]
+  simp only [mul_add, Finset.sum_add_distrib]
+  congr 1
+  simp only [Finset.mul_sum, Finset.sum_mul]
+  rw [Finset.sum_comm]
+  apply Finset.sum_congr rfl; intro o _
+  rw [Finset.sum_comm]
+  apply Finset.sum_congr rfl; intro s1 _
+  apply Finset.sum_congr rfl; intro s _
+  ring
+
+/-- **links_consistent_exec.**  If every entry is the one-step plan of its action and links (against the true
+    expectation) and every link is in range, then for EVERY horizon `h` stored, every entry `id` of that horizon and
+    every belief `b`, following the stored links for `h` steps earns exactly `b · values`. -/
+theorem links_consistent_exec {m : Pomdp} {vf : VF} (hc : ConsistentExact m vf) :
+    ∀ (h id : Nat) (b : Nat → Rat), h < vf.length → id < (vlist vf h).length →
+      execReturn m vf h id b = dot m.S b (val (entry vf h id)) := by
+  intro h
+  induction h with
+  | zero => intro id b _ _; simp [execReturn]
+  | succ h ih =>
+    intro id b hh hid
+    have ok := hc h hh id hid
+    simp only [execReturn]
+    have hstep : ∀ o, o < m.O →
+        execReturn m vf h (link (entry vf (h+1) id) o) (tau m b (entry vf (h+1) id).action o) =
+        dot m.S (tau m b (entry vf (h+1) id).action o) (val (entry vf h (link (entry vf (h+1) id) o))) :=
+      fun o ho => ih _ _ (by omega) (ok.link_lt o ho)
+    rw [sumTo_congr hstep]
+    have hv : dot m.S b (val (entry vf (h+1) id)) =
+        sumTo m.S (fun s => b s * oneStepExact m (vlist vf h) (entry vf (h+1) id) s) := by
+      unfold dot
+      exact sumTo_congr (fun s hs => by rw [ok.plan s hs])
+    rw [hv]
+    unfold oneStepExact
+    rw [plan_algebra m b (entry vf (h+1) id).action (fun o s1 => val (entryAt (vlist vf h) (link (entry vf (h+1) id) o)) s1)]
+    rfl
+
+/-- the form the code's own notion of consistency gives: with sub-tolerance observation probabilities exactly zero -/
+theorem links_consistent_exec_thresholded {m : Pomdp} {vf : VF} (hz : ZeroBelow m) (hc : Consistent m vf)
+    (h id : Nat) (b : Nat → Rat) (hh : h < vf.length) (hid : id < (vlist vf h).length) :
+    execReturn m vf h id b = dot m.S b (val (entry vf h id)) :=
+  links_consistent_exec (consistent_exact_of_zeroBelow hz hc) h id b hh hid
+
 end AITB.Plan
